@@ -200,6 +200,16 @@ func (m *mux) Open(id ConnID) (net.Conn, error) {
 			readC: make(chan []byte, m.qlen),
 		}
 		m.conns[id] = c
+
+		// A connection opened after the Mux has been closed (Close() holds
+		// connLock while it closes the existing connections and doneC) must
+		// not be left open: nothing would ever close it or feed it, and a
+		// Read() on it would block forever.
+		select {
+		case <-m.doneC:
+			c.close()
+		default:
+		}
 	}
 
 	return c, nil
